@@ -70,6 +70,7 @@ inductive LoadRes where
   | missing            -- `Ok(None)`
   | src (s : Source)   -- `Ok(Some(source))`
   | err                -- `Err(_)`
+  | panics             -- the loader closure panics (the caller catches the unwind)
   deriving Repr, DecidableEq
 
 /-- ghost: how an entry got into `owned_templates` -/
@@ -105,6 +106,7 @@ inductive Res where
   | found (t : Tmpl)
   | notFound              -- `Error::new_not_found`
   | loaderError           -- the loader's own `Err`
+  | panicked              -- the operation unwound (a user callback panicked) and was caught
   deriving Repr, DecidableEq
 
 /-- `LoaderStore::get` -/
@@ -120,6 +122,7 @@ def Store.get (compiles : LtCfg → Source → Bool) (s : Store) (n : Name) : St
       | some l =>
         match l n with
         | .err => (s, .loaderError)
+        | .panics => (s, .panicked)  -- `MemoMap` recovers its poisoned mutex; nothing was inserted
         | .missing => (s, .notFound)
         | .src src =>
           if compiles s.cfg src then
@@ -196,6 +199,7 @@ def Spec.get (compiles : LtCfg → Source → Bool) (sp : Spec) (n : Name) : Spe
       | some l =>
         match l n with
         | .err => (sp, .loaderError)
+        | .panics => (sp, .panicked)
         | .missing => (sp, .notFound)
         | .src src =>
           if compiles sp.cfg src then
@@ -253,6 +257,7 @@ def Flat.get (compiles : LtCfg → Source → Bool) (f : Flat) (n : Name) : Flat
     | some l =>
       match l n with
       | .err => (f, .loaderError)
+      | .panics => (f, .panicked)
       | .missing => (f, .notFound)
       | .src src =>
         if compiles f.cfg src then
@@ -512,6 +517,71 @@ def perThreadRun (created : List (Nat × Nat)) : List Nat → List (Nat × Nat)
   | [] => created
   | t :: ts => perThreadRun (created ++ [(t, perThreadId created t)]) ts
 
+/-! ## thread-local state and unwinding
+
+`value/mod.rs`: `INTERNAL_SERIALIZATION` (a per-thread flag, `true` while a `Value::from(Serde(x))`
+conversion runs; `impl Serialize for Value` then emits a *value handle* instead of the value's data),
+`LAST_VALUE_HANDLE` (a counter), `VALUE_HANDLES` (handle ↦ parked value).  The conversion does
+`old = flag.replace(true)` and creates `InternalSerializationGuard { reset_on_drop: !old }` whose
+`Drop` resets the flag iff `reset_on_drop` — on EVERY way out: normal return, an `Err` (which does
+not unwind) and a panic of a user `Serialize` impl that the host catches.  The other thread-locals
+of the crate hold no state that a later operation reads: the code generator's buffer pools are
+cleared when a buffer is taken, `macros::ENV` is an immutable environment. -/
+
+structure ThreadState where
+  /-- `INTERNAL_SERIALIZATION` -/
+  serializing : Bool
+  /-- `LAST_VALUE_HANDLE` -/
+  lastHandle : Nat
+  /-- `VALUE_HANDLES` -/
+  handles : List (Nat × Nat)
+  /-- the live `InternalSerializationGuard`s (their `reset_on_drop`), innermost first -/
+  guards : List Bool
+
+def ThreadState.clean : ThreadState := { serializing := false, lastHandle := 0, handles := [], guards := [] }
+
+/-- what happens inside conversions -/
+inductive ConvEv where
+  | enter            -- a (nested) `Value::from(Serde(..))` begins
+  | leave            -- it returns (with a value or with an invalid value for an `Err`)
+  | park (v : Nat)   -- an engine `Value` is serialised while the flag is set: parked under a fresh handle
+  | take             -- … and taken back by `ValueSerializer` (`SerializeTupleStruct::end`)
+
+/-- `Drop for InternalSerializationGuard`; `resetWhileUnwinding = true` is the code as it is,
+    `false` is the seeded variant C15-4 (`&& !std::thread::panicking()`) -/
+def dropGuard (resetWhileUnwinding unwinding : Bool) (t : ThreadState) : ThreadState :=
+  match t.guards with
+  | [] => t
+  | g :: gs =>
+    { t with guards := gs,
+             serializing := if g && (resetWhileUnwinding || !unwinding) then false else t.serializing }
+
+def ThreadState.step (t : ThreadState) : ConvEv → ThreadState
+  | .enter => { t with guards := (!t.serializing) :: t.guards, serializing := true }
+  | .leave => dropGuard true false t
+  | .park v =>
+    if t.serializing then { t with lastHandle := t.lastHandle + 1, handles := (t.lastHandle + 1, v) :: t.handles }
+    else t
+  | .take => { t with handles := t.handles.drop 1 }
+
+def ThreadState.run (t : ThreadState) : List ConvEv → ThreadState
+  | [] => t
+  | e :: es => ThreadState.run (t.step e) es
+
+/-- a panic: every live guard is dropped while unwinding, innermost first -/
+def unwind (resetWhileUnwinding : Bool) (t : ThreadState) : Nat → ThreadState
+  | 0 => t
+  | n + 1 => unwind resetWhileUnwinding (dropGuard resetWhileUnwinding true t) n
+
+/-- an outermost conversion whose body does `body` and is then left by a panic that the host catches -/
+def panickingConversion (resetWhileUnwinding : Bool) (t : ThreadState) (body : List ConvEv) : ThreadState :=
+  let t' := (t.step .enter).run body
+  unwind resetWhileUnwinding t' t'.guards.length
+
+/-- what `impl Serialize for Value` emits for a foreign serializer (`tojson`, JSON auto-escape):
+    the data, or a handle when the thread is (believed to be) inside a conversion -/
+def emitsData (t : ThreadState) : Bool := !t.serializing
+
 /-! ## the source facts this model transcribes
 
 Compared with the tables `lib/tables/c15.py` regenerates from `/repo` on every run
@@ -545,5 +615,25 @@ def modelStateId : String := "static:atomic:fetch_add"
 
 /-- `World.step (.clone e)` copies every field -/
 def modelCloneDerives : List String := ["Environment:derive", "LoaderStore:derive"]
+
+/-- every `thread_local!` of the crate (the feature-gated `verif_hooks.rs` aside) and what the model
+    says about it: `guarded` = restored by a drop guard on every way out (`ThreadState.serializing`),
+    `counter` = only ever incremented, read for freshness only (`lastHandle`), `registry` = entries
+    are keyed by fresh handles, a leaked entry is never read (`handles`), `immutable`, `pool` =
+    buffers are cleared when taken -/
+def modelThreadLocals : List (String × String) :=
+  [("compiler/codegen.rs:PENDING_BLOCK_POOL", "pool"), ("compiler/codegen.rs:SPAN_STACK_POOL", "pool"),
+   ("macros.rs:ENV", "immutable"),
+   ("value/mod.rs:INTERNAL_SERIALIZATION", "guarded"), ("value/mod.rs:LAST_VALUE_HANDLE", "counter"),
+   ("value/mod.rs:VALUE_HANDLES", "registry")]
+
+/-- every `impl Drop` of the crate that restores thread-local state: (type, condition, action) —
+    `dropGuard true`: the condition is the guard's own `reset_on_drop` and nothing else -/
+def modelDropGuards : List (String × String × String) :=
+  [("InternalSerializationGuard", "self.reset_on_drop", "self.flag.set(false);")]
+
+/-- `take_pending_block_buffer` / `take_span_stack_buffer` clear the pooled buffer -/
+def modelPoolTakeClears : List (String × Bool) :=
+  [("take_pending_block_buffer", true), ("take_span_stack_buffer", true)]
 
 end MJ.Store
